@@ -258,6 +258,64 @@ func Plain(data []byte, algs []crypto.Hash) (int, error) {
 	return Ask(algs, digest)
 }
 
+// ---- session 8 (fnarg.go): a function-typed parameter of a TRANSLATED function, a function literal as the argument ----
+
+// translated: `digest` is the triple state type / step function / state, the state it leaves comes back in front of the
+// results; the closure is not called when the size is wrong (crypto.Hash.Size: the prelude's table)
+func Check(alg crypto.Hash, want int, digest func(alg crypto.Hash) ([]byte, error)) (bool, error) {
+	if alg.Size() != want {
+		return false, fmt.Errorf("size")
+	}
+	d, err := digest(alg)
+	if err != nil {
+		return false, err
+	}
+	return len(d) == want, nil
+}
+
+// the memoising closure handed to the translated Check several times: `calls` counts how often it hashed
+func Checks(data []byte) (int, int) {
+	seen := map[crypto.Hash][]byte{}
+	calls := 0
+	digest := func(alg crypto.Hash) ([]byte, error) {
+		if d, ok := seen[alg]; ok {
+			return d, nil
+		}
+		calls++
+		h := alg.New()
+		h.Write(data)
+		seen[alg] = h.Sum(nil)
+		return seen[alg], nil
+	}
+	n := 0
+	ok, err := Check(crypto.SHA256, 32, digest)
+	if ok && err == nil {
+		n += 1
+	}
+	ok, err = Check(crypto.SHA256, 31, digest)
+	if !ok && err != nil {
+		n += 10
+	}
+	ok, err = Check(crypto.SHA256, 32, digest)
+	if ok && err == nil {
+		n += 100
+	}
+	ok, err = Check(crypto.SHA1, 20, digest)
+	if ok && err == nil {
+		n += 1000
+	}
+	return n, calls
+}
+
+// a function literal written as the argument
+func Lit(data []byte, want int) (bool, error) {
+	return Check(crypto.SHA256, want, func(alg crypto.Hash) ([]byte, error) {
+		h := alg.New()
+		h.Write(data)
+		return h.Sum(nil), nil
+	})
+}
+
 // ---- must be REJECTED ---------------------------------------------------------------------------
 
 // ranging over a map: Go's order is random
@@ -285,6 +343,12 @@ func FnValue(data []byte) (int, error) {
 	digest := func(alg crypto.Hash) ([]byte, error) { return data, nil }
 	other := digest
 	return Ask(nil, other)
+}
+
+// a function-typed parameter used as a value (bound to a second name)
+func FnParamValue(digest func(alg crypto.Hash) ([]byte, error)) (int, error) {
+	g := digest
+	return Ask(nil, g)
 }
 
 // a section reader that does not start at offset 0
